@@ -26,8 +26,9 @@ PROP = dict(
         "spec ops tlb.spec / tlb.extmsg compare the cell produced by the REAL tlb.Marshal with specChunk directly "
         "(not with the model of the implementation); struct values reach the spec BY FIELD NAME (byName picks "
         "them by the schema's field names), so exchanging two same-typed Go fields yields a failing input",
-        "the alias table BlockTlb.nameAliases (seqno~msg_seqno, rawmessages~messages/payload, sign~signature, "
-        "message~body, extendedactions~extended, boundedqueryid~query_id, and the three anonymous schema fields "
+        "the alias table BlockTlb.nameAliases, 11 entries (seqno~msg_seqno, rawmessages~messages, rawmessages~payload, "
+        "sign~signature, message~body, extendedactions~extended, boundedqueryid~query_id, feeburnnom~fee_burn_num "
+        "(the Go field of tlb.BurningConfig is spelled FeeBurnNom), and the three anonymous schema fields "
         "StateInit / Vm / Msgs)",
         "sources of the wallet schemas: abi/schemas/wallets.xml of the repository (v5r1 signed / extension "
         "bodies, highload v2) and the contract's action list; wallet v5 BETA: no schema text is shipped, the "
@@ -68,6 +69,11 @@ PROP = dict(
         "on every run (tlb.canon / tlb.canoninfo in C03's run: 593 of 593 real transactions and messages), not "
         "proved; where the encoding is not unique the hash changes (C03 noncanonical_cell_witnesses). "
         "reencode_own_output_message (formerly reencode_real) is only about the encoder's own output",
+        "counted as obligations in the evidence but not claims (literals / own output): sumtag_literals, "
+        "reencode_own_output_message; 41 impl_eq_spec_<S> theorems = the 40 structures + the generic HashmapE",
+        "DNS: of tlb/dns.go only DNSText has a schema tie (dnsText_decodes_spec: the DECODER model against the "
+        "transcribed `Text` declaration — the library has no encoder; tied to the code by tlb.dnstext / tlb.dns / "
+        "tlb.dnsspec in C03's run); the DNSRecord variants are compared model = code only",
         "the transcription of block.tlb is trusted; it is COARSER than block.tlb in three respects: MsgAddressInt and "
         "MsgAddressExt are one node (.msgAddress: all four constructors are accepted wherever an address stands, as "
         "in the Go type), the schema's constraints ({n <= 30}, depth >= 1, the implicit-parameter equations) are not "
@@ -82,13 +88,14 @@ PROP = dict(
                "byte-level model of the Go writers: writeUint_on_bitstring, writeInt_on_bitstring. Structure layer: "
                "impl_eq_spec — for every regenerated descriptor accepted by the decidable matcher against the "
                "transcribed schema (field order BY NAME: the Go field at each position must carry the schema's "
-               "field name modulo snake/Camel case and a 4-entry alias table; widths; tags; references), the "
+               "field name modulo snake/Camel case and the 11-entry alias table BlockTlb.nameAliases; widths; tags; references), the "
                "encoder appends exactly the chunk the schema prescribes, for every "
                "in-domain value (induction on descriptors; 17 hand-written codecs, dictionaries, reference chains "
                "and the highload payload included); impl_eq_spec_<S> is "
                "decided by the kernel for 40 structures on the descriptors regenerated from the Go source on "
                "every run (a swapped field / wrong width / wrong tag breaks it); ext_message_layout for "
-               "ton.CreateExternalMessage; specDict_is_hashmap_tree (the dictionary part of the schema side is the "
+               "ton.CreateExternalMessage; dnsText_decodes_spec (the decoder of DNS texts returns the concatenation "
+               "of the chunks of every cell the `Text` schema prescribes); specDict_is_hashmap_tree (the dictionary part of the schema side is the "
                "cell tree of a valid Hashmap with the given meaning); reencode_chain_cell (a chain cell that is "
                "canonical in the decidable sense is rebuilt bit for bit: same hash). Tie: ~11 000 lines per quick run where the cell of the real "
                "tlb.Marshal must equal the spec encoder's (exhaustive over primitive widths and VarUInteger "
